@@ -12,7 +12,7 @@
     the model; [plan_core ideal stock vmax min_transfer] is the planner behind the argument checks of
     [dilution_plan] (C14_dilution_plan); volumes are integers (type Z) by construction. *)
 From Robo Require Import Prelude Str Wells Utils Labware Tips Records Partition Params Worklist EvoCmd
-  Program Dilution DilutionProofs.
+  Program Dilution Invariants DilutionProofs DilutionExecProofs CtorProofs.
 
 (** the instruction for column c; planned volume, reported concentration and target of well (r, c) *)
 Definition no_instr : instr := {| i_col := 0; i_steps := 0; i_src := None; i_vols := [] |}.
@@ -460,4 +460,137 @@ Proof. vm_compute. split; reflexivity. Qed.
 Example C14_budget_example :
   ex_run (ex_plate 1 3 1500) 1 3 (plan_core [[10]; [8]; [32#5]] 1000 [1000; 1000; 1000] 10)
   = Some ([[200; 800; 0]; [19990]; [19010]], Some EUnderflow).
+Proof. vm_compute. reflexivity. Qed.
+
+(* ------------------------------------------------------------------------------------------ *)
+(** * the volume ledger of [transfer] ("C04 for transfers") and the volumes after [to_worklist] *)
+
+(** the (source, destination, volume) triples of a [transfer] call: arguments flattened column-major,
+    singletons broadcast *)
+Definition transfer_triples (sw dw : arr string) (vs : arr Q) : list triple :=
+  let n := Nat.max (length (flattenF sw)) (Nat.max (length (flattenF dw)) (length (flattenF vs))) in
+  zip (zip (broadcast (flattenF sw) n) (broadcast (flattenF dw) n)) (broadcast (flattenF vs) n).
+(** well id [w] names the real well with flat index [i] of labware [L] *)
+Definition is_well (L : labware) (i : nat) (w : string) : bool :=
+  match lw_index L w with Some k => (k =? i)%nat | None => false end.
+(** total volume the triples take out of / put into the real well [i] of [L] *)
+Definition taken_from (L : labware) (i : nat) (T : list triple) : Q :=
+  Qsum (map snd (filter (fun t => is_well L i (fst (fst t))) T)).
+Definition put_into (L : labware) (i : nat) (T : list triple) : Q :=
+  Qsum (map snd (filter (fun t => is_well L i (snd (fst t))) T)).
+
+(** The full statement
+      forall s ks sw kd dw vols label ws pb kw s',
+        transfer s ks sw kd dw vols label ws pb kw = (s', None) -> wf_state s ->
+        length (st_lw s') = length (st_lw s) /\
+        forall j L, nth_error (st_lw s) j = Some L ->
+          exists L', nth_error (st_lw s') j = Some L' /\ lw_geom L' = lw_geom L /\
+            forall i, vol_at L' i == vol_at L i
+                        - (if j =? ks then taken_from L i (transfer_triples sw dw vols) else 0)
+                        + (if j =? kd then put_into L i (transfer_triples sw dw vols) else 0)
+    is refuted: on a worklist with max_volume = -2 and auto_split, [partition_volume 5 (-2)] is one
+    non-positive piece, no step is planned, the transfer of 5 uL is accepted and nothing moves. *)
+Theorem C14_transfer_ledger_refuted :
+  exists s ks sw kd dw vols label ws pb kw s' L L',
+    transfer s ks sw kd dw vols label ws pb kw = (s', None) /\ wf_state s /\
+    nth_error (st_lw s) ks = Some L /\ nth_error (st_lw s') ks = Some L' /\
+    ~ (vol_at L' 0 == vol_at L 0
+                      - (if (ks =? ks)%nat then taken_from L 0 (transfer_triples sw dw vols) else 0)
+                      + (if (ks =? kd)%nat then put_into L 0 (transfer_triples sw dw vols) else 0))%Q.
+Proof. exact c14_transfer_ledger_refuted. Qed.
+Print Assumptions C14_transfer_ledger_refuted.
+
+(** what holds: on a worklist with a positive max_volume, an accepted transfer keeps the number and
+    the geometry of the labware and changes the volume of every real well [i] of every labware [j] by
+    exactly what the requested triples say: minus the volumes of the triples whose source well is
+    [(ks, i)], plus those whose destination well is [(kd, i)] (several ids of a trough column name the
+    same real well; a well onto itself nets to zero) *)
+Theorem C14_transfer_ledger_partial : forall s ks sw kd dw vols label ws pb kw s',
+  transfer s ks sw kd dw vols label ws pb kw = (s', None) -> wf_state s -> (0 < w_max (st_wl s))%Q ->
+  length (st_lw s') = length (st_lw s) /\
+  forall j L, nth_error (st_lw s) j = Some L ->
+    exists L', nth_error (st_lw s') j = Some L' /\ lw_geom L' = lw_geom L /\
+      forall i, (vol_at L' i == vol_at L i
+                               - (if (j =? ks)%nat then taken_from L i (transfer_triples sw dw vols) else 0)
+                               + (if (j =? kd)%nat then put_into L i (transfer_triples sw dw vols) else 0))%Q.
+Proof. exact c14_transfer_ledger. Qed.
+Print Assumptions C14_transfer_ledger_partial.
+
+(** A run of [to_worklist] without refusal, on a worklist with positive max_volume (necessary, see
+    above), with the plate (not a trough), the stock trough, the diluent trough and the optional
+    destination plate pairwise different labware, and the used region of the plate empty.  [C] is
+    arbitrary (the checks of to_worklist and the accepted transfers imply all that is needed).
+    (a) the stock column lost exactly v_stock, no other well of the stock trough changed;
+    (b) the diluent column lost exactly R * sum vmax - (all planned volumes), which is at most
+        v_diluent, no other well of the diluent trough changed;
+    (c) plate well (r, c) holds vmax[c] minus what later columns drew from it minus v_destination if a
+        destination plate is given; the mixing transfers change nothing. *)
+Theorem C14_exec_volumes : forall ideal stock vmax mt p R a C s s' P St D,
+  plan_core ideal stock vmax mt = Ok p -> rows R ideal -> length vmax = length ideal -> tw_R a = R ->
+  to_worklist s a p C = (s', None) -> wf_state s -> (0 < w_max (st_wl s))%Q ->
+  tw_plate a <> tw_stock a -> tw_plate a <> tw_diluent a -> tw_stock a <> tw_diluent a ->
+  (forall d, tw_dest a = Some d -> d <> tw_plate a /\ d <> tw_stock a /\ d <> tw_diluent a) ->
+  nth_error (st_lw s) (tw_plate a) = Some P -> nth_error (st_lw s) (tw_stock a) = Some St ->
+  nth_error (st_lw s) (tw_diluent a) = Some D ->
+  is_trough (lw_geom P) = false ->
+  (forall r c, (r < R)%nat -> (c < length ideal)%nat -> (vol_at P (r * g_cols (lw_geom P) + c) == 0)%Q) ->
+  exists P' St' D',
+    nth_error (st_lw s') (tw_plate a) = Some P' /\ nth_error (st_lw s') (tw_stock a) = Some St' /\
+    nth_error (st_lw s') (tw_diluent a) = Some D' /\
+    lw_geom P' = lw_geom P /\ lw_geom St' = lw_geom St /\ lw_geom D' = lw_geom D /\
+    (forall i, (vol_at St' i ==
+                vol_at St i - (if (i =? tw_stock_column a)%nat then inject_Z (v_stock p) else 0))%Q) /\
+    (forall i, (vol_at D' i ==
+                vol_at D i - (if (i =? tw_diluent_column a)%nat
+                              then inject_Z (Z.of_nat R) * Qsum vmax
+                                   - inject_Z (sumZ (concat (map i_vols (dp_instr p))))
+                              else 0))%Q) /\
+    ((0 <= mt)%Q ->
+     (inject_Z (Z.of_nat R) * Qsum vmax - inject_Z (sumZ (concat (map i_vols (dp_instr p))))
+      <= v_diluent R p)%Q) /\
+    (forall r c, (r < R)%nat -> (c < length ideal)%nat ->
+       lw_index P (well_id r c) = Some (r * g_cols (lw_geom P) + c)%nat /\
+       (vol_at P' (r * g_cols (lw_geom P) + c) ==
+          nth c vmax 0 - inject_Z (drawn_from p c r)
+          - (match tw_dest a with Some _ => tw_v_destination a | None => 0 end))%Q).
+Proof. exact c14_exec_volumes. Qed.
+Print Assumptions C14_exec_volumes.
+
+(** the hypotheses of C14_exec_volumes hold for the run of C14_exec_example (whose final volumes are
+    those the theorem predicts: 200 - 20 = 180 in column 0, 200 - 40 resp. 200 - 25 in column 2,
+    20000 - 540 in the stock, 20000 - (2 * 800 - 645) in the diluent) *)
+Example C14_exec_volumes_example : forall P St D,
+  ex_plate 2 4 300 = Ok P -> ex_trough "stock" = Ok St -> ex_trough "water" = Ok D ->
+  let s := {| st_lw := [P; St; D]; st_wl := init_wl Evo 950 true false |} in
+  plan_core ex_ideal 100 [200; 200; 200; 200] 20 = Ok ex_plan /\ rows 2 ex_ideal /\
+  wf_state s /\ 0 < w_max (st_wl s) /\ is_trough (lw_geom P) = false /\
+  (forall r c, (r < 2)%nat -> (c < 4)%nat -> vol_at P (r * g_cols (lw_geom P) + c) == 0) /\
+  snd (to_worklist s (ex_args 2) ex_plan 4) = None.
+Proof.
+  intros P St D HP HSt HD s.
+  split; [vm_compute; reflexivity|]. split; [repeat constructor|].
+  split.
+  { repeat apply Forall_cons;
+      [exact (mk_labware_wf _ _ HP)|exact (mk_trough_wf _ _ HSt)|exact (mk_trough_wf _ _ HD)|apply Forall_nil]. }
+  subst s. vm_compute in HP, HSt, HD. injection HP as <-. injection HSt as <-. injection HD as <-.
+  split; [reflexivity|]. split; [reflexivity|]. split.
+  - intros [|[|r]] c Hr Hc; [| |lia]; destruct c as [|[|[|[|c]]]]; try lia; vm_compute; reflexivity.
+  - vm_compute. reflexivity.
+Qed.
+
+(** max_volume > 0 is needed in C14_exec_volumes as well: with max_volume = -2 (and no mixing) the
+    one-column plan is "executed" without refusal and without moving anything *)
+Definition ex_args_nomix (R : nat) : twl_args :=
+  {| tw_R := R; tw_stock := 1; tw_stock_column := 0; tw_diluent := 2; tw_diluent_column := 0;
+     tw_plate := 0; tw_dest := None; tw_v_destination := 0; tw_mix_threshold := 2;
+     tw_mix_wash := SInt 2; tw_mix_repeat := 2; tw_mix_volume := 4#5;
+     tw_lc_stock := "Water"; tw_lc_diluent := "Water"; tw_lc_mix := "Water"; tw_lc_transfer := "Water" |}.
+Example C14_exec_negative_max_example :
+  match ex_plate 2 1 300, ex_trough "stock", ex_trough "water", plan_core [[100; 80]] 100 [200] 20 with
+  | Ok P, Ok St, Ok D, Ok p =>
+      let s := {| st_lw := [P; St; D]; st_wl := init_wl Evo (-(2)) true false |} in
+      let '(s', e) := to_worklist s (ex_args_nomix 2) p 1 in
+      Some (map lw_vols (st_lw s'), e, v_stock p)
+  | _, _, _, _ => None
+  end = Some ([[0; 0]; [20000]; [20000]], None, 360%Z).
 Proof. vm_compute. reflexivity. Qed.
